@@ -42,15 +42,31 @@ func Instrs(fn *ssa.Function, f func(ssa.Instruction)) {
 
 // WithAnon returns fn and all anonymous functions nested in it (transitively).
 func WithAnon(fn *ssa.Function) []*ssa.Function {
+	// the closure family of fn: its function literals (transitively), the literals created inside helpers that are analysed as part
+	// of a member, and the methods whose only use is a method value created in a member (named closures) – to a fixpoint.
+	// Helpers themselves are not members: Instrs/Calls of a member already visit their bodies.
 	out := []*ssa.Function{fn}
-	for _, a := range fn.AnonFuncs {
-		out = append(out, WithAnon(a)...)
+	seen := map[*ssa.Function]bool{fn: true}
+	add := func(g *ssa.Function) {
+		if g != nil && !seen[g] {
+			seen[g] = true
+			out = append(out, g)
+		}
 	}
-	// closures created inside helpers that are analysed as part of fn belong to fn's family too
-	if fn.Parent() == nil || true {
-		for _, h := range AbsorbedInto(fn) {
+	for k := 0; k < len(out) && k < 400; k++ {
+		g := out[k]
+		for _, a := range g.AnonFuncs {
+			add(a)
+		}
+		for _, m := range AdoptedBy(g) {
+			add(m)
+		}
+		for _, h := range AbsorbedInto(g) {
 			for _, a := range h.AnonFuncs {
-				out = append(out, withAnonPlain(a)...)
+				add(a)
+			}
+			for _, m := range AdoptedBy(h) {
+				add(m)
 			}
 		}
 	}
@@ -209,6 +225,12 @@ func Unwrap(v ssa.Value) ssa.Value {
 			v = x.X
 		case *ssa.ChangeInterface:
 			v = x.X
+		case *ssa.Parameter:
+			if b := boundOnActivePath(x); b != nil {
+				v = b // inside a path-search callback: the argument of the activation on the path (paths.go)
+				continue
+			}
+			return v
 		case *ssa.Call:
 			// the module's generic cast helper is a conversion: math.CastTo[T](x) ≡ T(x)
 			if len(x.Call.Args) == 1 && !x.Call.IsInvoke() {
@@ -532,8 +554,13 @@ func SameFunc(a, b *ssa.Function) bool {
 // (as a closure or, when it captures nothing, as a plain function value).
 func FuncValueUses(anon *ssa.Function) []ssa.Instruction {
 	parent := anon.Parent()
+	bound := false
 	if parent == nil {
-		return nil
+		// a method whose only use is one method value (a named closure): the uses of that value
+		if parent = BinderOf(anon); parent == nil {
+			return nil
+		}
+		bound = true
 	}
 	var out []ssa.Instruction
 	InstrsOwn(parent, func(in ssa.Instruction) {
@@ -549,6 +576,10 @@ func FuncValueUses(anon *ssa.Function) []ssa.Instruction {
 			case *ssa.MakeClosure:
 				if v.Fn == anon {
 					out = append(out, in)
+				} else if w, isF := v.Fn.(*ssa.Function); bound && isF {
+					if t, shift := MethodBehind(w); shift == 1 && t == anon {
+						out = append(out, in)
+					}
 				}
 			}
 		}
@@ -584,11 +615,8 @@ func MethodBehind(fn *ssa.Function) (*ssa.Function, int) {
 	InstrsOwn(fn, func(in ssa.Instruction) {
 		if c, ok := in.(ssa.CallInstruction); ok {
 			if g := c.Common().StaticCallee(); g != nil {
-				if len(g.Blocks) == 0 && g.Origin() != nil {
-					g = g.Origin()
-				}
-				if len(g.Blocks) > 0 {
-					target = g
+				if b := bodyOf(g); b != nil { // the generic origin behind an instantiation wrapper
+					target = b
 				}
 			}
 		}
